@@ -23,12 +23,14 @@ type Step struct {
 }
 
 type Case struct {
-	Comp   int    `json:"comp"`
-	WBuf   int    `json:"wbuf"`
-	RBuf   int    `json:"rbuf"`
-	Direct bool   `json:"direct,omitempty"`
-	Steps  []Step `json:"steps"`
-	Prog   []bool `json:"prog"` // reader program: true = ReadNext, false = SkipNext (cycled)
+	Comp   int  `json:"comp"`
+	WBuf   int  `json:"wbuf"`
+	RBuf   int  `json:"rbuf"`
+	Direct bool `json:"direct,omitempty"`
+	// DirectRead: a file written through the buffered factory (any length, no padding) is read through the direct-I/O one
+	DirectRead bool   `json:"direct_read,omitempty"`
+	Steps      []Step `json:"steps"`
+	Prog       []bool `json:"prog"` // reader program: true = ReadNext, false = SkipNext (cycled)
 }
 
 var directOnce sync.Once
@@ -48,16 +50,16 @@ func Gen() *rapid.Generator[Case] {
 		c.Comp = rapid.IntRange(0, 3).Draw(t, "comp")
 		c.Direct = rapid.IntRange(0, 5).Draw(t, "direct") == 0
 		if c.Direct {
-			c.WBuf = rapid.SampledFrom([]int{4096, 8192}).Draw(t, "wbuf")
-			c.RBuf = rapid.SampledFrom([]int{4096, 8192}).Draw(t, "rbuf")
+			c.WBuf = rapid.SampledFrom([]int{4096, 4096, 8192, 8192, 65536}).Draw(t, "wbuf")
+			c.RBuf = rapid.SampledFrom([]int{4096, 4096, 8192, 8192, 65536}).Draw(t, "rbuf")
 		} else {
 			c.WBuf = rapid.SampledFrom([]int{1, 7, 64, 4096, 4 << 20}).Draw(t, "wbuf")
 			c.RBuf = rapid.SampledFrom([]int{4, 7, 64, 4096, 4 << 20}).Draw(t, "rbuf")
+			if c.DirectRead = rapid.IntRange(0, 9).Draw(t, "directread") == 0; c.DirectRead {
+				c.RBuf = rapid.SampledFrom([]int{4096, 4096, 8192, 65536}).Draw(t, "rbufd")
+			}
 		}
 		maxLen := 9000
-		if c.Direct {
-			maxLen = c.WBuf // records larger than the block buffer would be written unaligned
-		}
 		sizes := []int{c.WBuf, c.RBuf, 1024, 4096}
 		for i := range sizes {
 			if sizes[i] > maxLen {
@@ -110,12 +112,22 @@ func show(b []byte) string {
 }
 
 func Prop(c Case, x *h.Ctx) *h.Violation {
-	if c.Direct && !directAvailable() {
+	if (c.Direct || c.DirectRead) && !directAvailable() {
 		x.Label("direct-io-unavailable")
 		return nil
 	}
 	dir, done := h.Scratch("c04")
 	defer done()
+	if c.Direct || c.DirectRead {
+		// tmpfs accepts O_DIRECT and ignores its alignment rules: direct-I/O cases run on a disk file system when there is one
+		if d, ddone, ok := h.DiskScratch("c04"); ok {
+			defer ddone()
+			dir = d
+			x.Label("direct-io-on-disk-fs")
+		} else {
+			x.Label("direct-io-on-tmpfs-only")
+		}
+	}
 	path := filepath.Join(dir, "f.rio")
 
 	// ---------------- writer program ----------------
@@ -198,7 +210,7 @@ func Prop(c Case, x *h.Ctx) *h.Violation {
 
 	newReader := func() (recordio.ReaderI, *h.Violation) {
 		ropts := []recordio.FileReaderOption{recordio.ReaderPath(path), recordio.ReaderBufferSizeBytes(c.RBuf)}
-		if c.Direct {
+		if c.Direct || c.DirectRead {
 			ropts = append(ropts, recordio.ReaderIoFactory(recordio.DirectIOFactory{}))
 		}
 		r, err := recordio.NewFileReader(ropts...)
@@ -354,6 +366,8 @@ func Prop(c Case, x *h.Ctx) *h.Violation {
 	x.Labelf("comp=%d", c.Comp)
 	if c.Direct {
 		x.Label("factory=direct")
+	} else if c.DirectRead {
+		x.Label("factory=buffered-write-direct-read")
 	} else {
 		x.Label("factory=buffered")
 	}
